@@ -9,4 +9,9 @@ require (
 	golang.org/x/tools v0.50.0
 )
 
+require (
+	golang.org/x/mod v0.41.0 // indirect
+	golang.org/x/sync v0.23.0 // indirect
+)
+
 replace github.com/absfs/absnfs => /repo
